@@ -138,6 +138,8 @@ func runC05(ctx *h.Ctx) int {
 	ctx.RunCases("optimize-pairs", ctx.N(4000, 200000), func(k *h.Case) {
 		p := prof
 		p.WCondGoto = 3
+		// the same operand and comparison twice in a row, and single-call bodies: what an optimizer likes to merge
+		p.PReuseOperand, p.PCall = 0.25, 0.08
 		if k.Index%2 == 0 {
 			p.PTextArg, p.PMovesArg, p.WPory, p.PAuto = 0.1, 0.05, 0, 0.1
 			p.MaxDepth = 4
